@@ -74,7 +74,7 @@ _SAFE_BUILTINS = {
 }
 
 _SAFE_METHODS = {
-    str: {"rpartition", "removeprefix", "removesuffix", "isalpha", "isalnum", "isidentifier", "splitlines", "title", "capitalize", "index", "rfind", "casefold", "center", "ljust", "rjust", "expandtabs", "encode",
+    str: {"translate", "rpartition", "removeprefix", "removesuffix", "isalpha", "isalnum", "isidentifier", "splitlines", "title", "capitalize", "index", "rfind", "casefold", "center", "ljust", "rjust", "expandtabs", "encode",
           "split", "startswith", "endswith", "lower", "upper", "replace", "strip", "join", "format", "rsplit", "partition", "zfill", "isdigit", "lstrip", "rstrip", "find", "count"},
     # mutators are allowed: every value here is a model value owned by the evaluator
     list: {"index", "count", "copy", "append", "insert", "pop", "extend", "remove", "reverse", "sort", "clear"},
